@@ -204,6 +204,17 @@ def run(ctx, known, built):
     os.makedirs(out)
     corpus = sorted(glob.glob(os.path.join(VERIF, "corpus", "C16", "*.json")))
     import time
+    # string literals of norad's sources that could be file names: extra entries for the name pools
+    import driver
+    lits = set()
+    for root, _, fs in os.walk(os.path.join(driver.REPO, "src")):
+        for f in fs:
+            if f.endswith(".rs"):
+                for m in re.finditer(r'"((?:[^"\\\n]|\\.){1,40})"', open(os.path.join(root, f), errors="replace").read()):
+                    t = m.group(1)
+                    if "\\" not in t and "/" not in t and t not in (".", "..") and all(32 <= ord(c) < 127 for c in t):
+                        lits.add(t)
+    open(os.path.join(out, "names.txt"), "w").write("\n".join(sorted(lits)) + "\n")
     t0 = time.time()
     rc, o = sh([ctx.harness, "c16", "--tier", ctx.tier, "--seed", str(ctx.seed), "--out", out] + corpus, timeout=3000)
     ctx.timings["harness_run"] = round(time.time() - t0, 1)
